@@ -110,7 +110,7 @@ fn smt_quote(name: &str) -> String {
 }
 
 /// one (system, entry step, number of unrolls) check; returns Err((class, what)) on a violation
-fn check_one(spec: &SysSpec, entry: u64, unrolls: u64, inc_out: bool, rep: &Report) -> Result<bool, (String, String)> {
+fn check_one(spec: &SysSpec, entry: u64, unrolls: u64, inc_out: bool, pre: Option<(u64, u64)>, rep: &Report) -> Result<bool, (String, String)> {
     let mut ctx = Context::default();
     let with_out;
     let spec = if inc_out {
@@ -124,6 +124,17 @@ fn check_one(spec: &SysSpec, entry: u64, unrolls: u64, inc_out: bool, rep: &Repo
     let mut rec = RecCtx { text: String::new(), commands: vec![] };
     let run = catch(|| -> patronus::smt::Result<UnrollSmtEncoding> {
         let mut enc = UnrollSmtEncoding::new(&mut ctx, &sys, inc_out);
+        // an earlier session of the same encoder on another solver (init_at starts a session afresh: a k-induction
+        // style client runs the base case and the step case on one encoder): nothing of it may leak into the script
+        // of the session under test
+        if let Some((e0, u0)) = pre {
+            let mut old = RecCtx { text: String::new(), commands: vec![] };
+            enc.define_header(&mut old)?;
+            enc.init_at(&mut ctx, &mut old, e0)?;
+            for _ in 0..u0 {
+                enc.unroll(&mut ctx, &mut old)?;
+            }
+        }
         enc.define_header(&mut rec)?;
         enc.init_at(&mut ctx, &mut rec, entry)?;
         for _ in 0..unrolls {
@@ -360,26 +371,36 @@ pub fn run(opts: &Opts, rep: &Report) {
     let budget = Budget::new(opts.budget_s);
     let specs = family(tier, opts.seed);
     let max_unroll = if tier.is_thorough() { 3 } else { 2 };
-    let mut work: Vec<(usize, u64, u64, bool)> = vec![];
+    let mut work: Vec<(usize, u64, u64, bool, Option<(u64, u64)>)> = vec![];
     for (i, _) in specs.iter().enumerate() {
         // the encoding with and without the outputs as signals (what bmc uses is `false`); without outputs
         // in the system the two are the same encoding
         for inc_out in [false, true] {
             for entry in [0u64, 1, 3] {
                 for u in 0..=max_unroll {
-                    work.push((i, entry, u, inc_out));
+                    work.push((i, entry, u, inc_out, None));
                 }
             }
             // two-digit step numbers: entry at 9 and 10, and a long unrolling from the initial state
             if specs[i].name.starts_with("X-deep") {
-                work.extend([(i, 9, 2, inc_out), (i, 10, 1, inc_out), (i, 0, 11, inc_out)]);
+                work.extend([(i, 9, 2, inc_out, None), (i, 10, 1, inc_out, None), (i, 0, 11, inc_out, None)]);
             }
         }
     }
+    // second sessions: every system, session under test {init_at(0)+1, init_at(1)+1, init_at(2)+0} after an earlier
+    // session {init_at(0)+2, init_at(1)+1} with overlapping step numbers
+    for (i, _) in specs.iter().enumerate() {
+        for pre in [(0u64, 2u64), (1, 1)] {
+            for (entry, u) in [(0u64, 1u64), (1, 1), (2, 0)] {
+                work.push((i, entry, u, false, Some(pre)));
+            }
+        }
+    }
+    rep.add("cases_second_session", work.iter().filter(|w| w.4.is_some()).count() as u64);
     rep.add("cases_with_outputs_included", work.iter().filter(|w| w.3).count() as u64);
     rep.add("cases_enumerated", work.len() as u64);
     let stop = std::sync::atomic::AtomicBool::new(false);
-    work.par_iter().enumerate().for_each(|(order, (i, entry, u, inc_out))| {
+    work.par_iter().enumerate().for_each(|(order, (i, entry, u, inc_out, pre))| {
         if stop.load(std::sync::atomic::Ordering::Relaxed) {
             return;
         }
@@ -389,10 +410,10 @@ pub fn run(opts: &Opts, rep: &Report) {
         }
         let spec = &specs[*i];
         rep.add("evaluations", 1);
-        match check_one(spec, *entry, *u, *inc_out, rep) {
+        match check_one(spec, *entry, *u, *inc_out, *pre, rep) {
             Ok(nontrivial) => {
                 if nontrivial {
-                    rep.distinct_hashes(&[hash64(&format!("{}|{entry}|{u}|{inc_out}", spec.to_json()))]);
+                    rep.distinct_hashes(&[hash64(&format!("{}|{entry}|{u}|{inc_out}|{pre:?}", spec.to_json()))]);
                 }
                 if order % 5003 == 0 {
                     rep.sample(json!({"system": spec.to_json(), "entry": entry, "unrolls": u, "include_outputs": inc_out}));
@@ -402,8 +423,8 @@ pub fn run(opts: &Opts, rep: &Report) {
                 let entry_class = if *entry == 0 { "from-init" } else { "from-free-state" };
                 rep.violation(Violation {
                     sig: format!("C04|{}|{}|{}", class, entry_class, deviation(spec)),
-                    what: format!("{} [init_at({entry}) + {u} unroll(s){}] {what}", deviation(spec), if *inc_out { ", outputs included" } else { "" }),
-                    case: json!({"sys": spec.to_json(), "entry": entry, "unrolls": u, "include_outputs": inc_out}),
+                    what: format!("{} [init_at({entry}) + {u} unroll(s){}{}] {what}", deviation(spec), if *inc_out { ", outputs included" } else { "" }, match pre { Some((e0, u0)) => format!(", second session of an encoder that ran init_at({e0}) + {u0} unroll(s) before"), None => String::new() }),
+                    case: json!({"sys": spec.to_json(), "entry": entry, "unrolls": u, "include_outputs": inc_out, "pre": pre.map(|(a, b)| vec![a, b])}),
                     order: order as u64,
                 });
             }
@@ -419,6 +440,7 @@ pub fn replay(case: &Value, rep: &Report) {
     let entry = case["entry"].as_u64().unwrap_or(0);
     let u = case["unrolls"].as_u64().unwrap_or(0);
     let inc_out = case["include_outputs"].as_bool().unwrap_or(false);
+    let pre = case["pre"].as_array().map(|a| (a[0].as_u64().unwrap_or(0), a[1].as_u64().unwrap_or(0)));
     // print the recorded script for the reader
     {
         let mut ctx = Context::default();
@@ -433,7 +455,7 @@ pub fn replay(case: &Value, rep: &Report) {
         });
         println!("--- recorded script ---\n{}", rec.text);
     }
-    if let Err((class, what)) = check_one(&spec, entry, u, inc_out, rep) {
+    if let Err((class, what)) = check_one(&spec, entry, u, inc_out, pre, rep) {
         let entry_class = if entry == 0 { "from-init" } else { "from-free-state" };
         rep.violation(Violation { sig: format!("C04|{}|{}|{}", class, entry_class, deviation(&spec)), what, case: case.clone(), order: 0 });
     }
